@@ -167,7 +167,7 @@ def role_params(role, side: str, base=None):
     return out or None
 
 
-def jose_encrypt(plan, keymode: str = "attached", form: str = "dict", preset_epk: bool = False):
+def jose_encrypt(plan, keymode: str = "attached", form: str = "dict", preset_epk: bool = False, times: int = 1):
     """keymode: 'attached' (key handed to add_recipient / positional), 'keyset' (kid lookup), 'callable'."""
     from joserfc import jwe
     from joserfc.jwk import KeySet
@@ -195,6 +195,9 @@ def jose_encrypt(plan, keymode: str = "attached", form: str = "dict", preset_epk
             kcls = ECKey if r["key"]["kty"] == "EC" else OKPKey
             obj.recipients[-1].ephemeral_key = kcls.generate_key(gk.key_from_record(r["key"])["crv"], {"kid": "eph-1", "use": "enc"})
     keyarg = None if keymode == "attached" else KeySet(keys) if keymode == "keyset" else (lambda o: keys[[i for i, r in enumerate(recs) if (o.headers().get("kid") == r["kid"])][0]] if len(recs) > 1 else keys[0])
+    for _ in range(times - 1):
+        # the object serves as a template: it is encrypted more than once, the last output counts
+        jwe.encrypt_json(obj, keyarg, sender_key=sender, **allow_kw(plan))
     return jwe.encrypt_json(obj, keyarg, sender_key=sender, **allow_kw(plan))
 
 
